@@ -14,7 +14,7 @@ import traffic_weaver.sorted_array_utils as sau
 PROPERTY = "C10"
 LEVEL = "exploration"
 RULE = ("lattice: every strictly increasing array of <=6 elements over {0..L-1} x every non-decreasing query tuple "
-        "(1..Q values) over the half-integer lattice {-1,-0.5,..,L} (quick L=7,Q=3; thorough L=8,Q=4; enumerated "
+        "(1..Q values) over the half-integer lattice {-1,-0.5,..,L} (quick L=7,Q=3; thorough L=9,Q=4; enumerated "
         "completely), each run through the three scans with fill on/off and through the dispatcher, as list / "
         "int64 / float64 inputs; floats: Hypothesis arrays of 1..200 floats with queries equal to, 1 ulp beside, "
         "midway between and beyond elements. Non-trivial = the query tuple contains an out-of-range value, an "
@@ -110,7 +110,7 @@ def _classify(x, q):
 # ---- exhaustive lattice ---------------------------------------------------------------------------------------
 
 def lattice_cases(ctx, shard, nshards):
-    L, Q = ctx.pick((7, 3), (8, 4))
+    L, Q = ctx.pick((7, 3), (9, 4))
     lattice = [v / 2.0 for v in range(-2, 2 * L + 1)]
     idx = 0
     for size in range(1, min(6, L) + 1):
